@@ -773,3 +773,25 @@ add("C12", "revert: empty list arguments leave no trace in the payload", "sqlglo
     "", "C12.h", extra=[("sqlglot/serde.py", "    for arg_key in reversed(payload.get(EMPTY) or ()):\n        expression.set(arg_key, [])\n", "")])
 add("C12", "loader forgets the empty-list key", "sqlglot/serde.py",
     "    for arg_key in reversed(payload.get(EMPTY) or ()):\n        expression.set(arg_key, [])\n", "", "C12.a")
+
+# benign refactors for the rules added in the second seeded round
+add("C20", "benign: bigram cache cleared by rebinding through a helper local", DIFF,
+    "        self._bigram_histo_cache: dict[int, defaultdict[str, int]] = {}\n\n        matching_set",
+    "        cache: dict[int, defaultdict[str, int]] = {}\n        self._bigram_histo_cache = cache\n\n        matching_set", "silent", 0)
+add("C13", "benign: clamped lower bound computed in a local first", "sqlglot/errors.py",
+    "        start_context = sql[max(0, first_highlight_start - context_length) : first_highlight_start]",
+    "        window_start = max(0, first_highlight_start - context_length)\n        start_context = sql[window_start:first_highlight_start]", "silent", 0)
+add("C10", "benign: case folding written with if/else statements", DIALECT,
+    "                normalized = (\n                    expression.this.translate(ASCII_UPPER)\n                    if self.ASCII_ONLY_NORMALIZATION\n                    else expression.this.upper()\n                )\n",
+    "                if self.ASCII_ONLY_NORMALIZATION:\n                    normalized = expression.this.translate(ASCII_UPPER)\n                else:\n                    normalized = expression.this.upper()\n", "silent", 0)
+add("C12", "benign: empty-list keys recorded with an explicit membership test", "sqlglot/serde.py",
+    "                            payload.setdefault(EMPTY, []).append(k)\n",
+    "                            if EMPTY not in payload:\n                                payload[EMPTY] = []\n                            payload[EMPTY].append(k)\n", "silent", 0)
+add("C08", "benign: partition bounds wrapped through a helper lambda variable", "sqlglot/parsers/doris.py",
+    "        values = self._parse_csv(\n            lambda: self.expression(\n                exp.Tuple(expressions=self._parse_wrapped_csv(self._parse_expression))\n            )\n        )\n",
+    "        parse_bound = lambda: self.expression(  # noqa: E731\n            exp.Tuple(expressions=self._parse_wrapped_csv(self._parse_expression))\n        )\n        values = self._parse_csv(parse_bound)\n", "silent", 0)
+add("C05", "benign: forward peek bound check against the size field", "sqlglot/parsers/teradata.py",
+    "            and self._index + 2 < len(self._tokens)\n", "            and self._index + 2 < self._tokens_size\n", "silent", 0)
+add("C15", "benign: helper generator prunes through an explicit set difference variable", "sqlglot/generators/athena.py",
+    "        if k not in generator.ALL_JSON_PATH_PARTS - TrinoGenerator.SUPPORTED_JSON_PATH_PARTS\n",
+    "        if k not in (generator.ALL_JSON_PATH_PARTS - TrinoGenerator.SUPPORTED_JSON_PATH_PARTS)\n", "silent", 0)
